@@ -106,6 +106,7 @@ fn build(ch: &mut Chooser, fmt: &str, s: &str) -> (Vec<u8>, String) {
         }
         _ => {
             let storage = ch.choose("ods.storage", 6);
+            let annotated = ch.flag("ods.cell-has-a-comment");
             let val = match storage {
                 0 => ods::OVal::StrContent(s.to_string(), ods::SpaceMode::TextS, false),
                 1 => ods::OVal::StrContent(s.to_string(), ods::SpaceMode::Literal, false),
@@ -116,9 +117,9 @@ fn build(ch: &mut Chooser, fmt: &str, s: &str) -> (Vec<u8>, String) {
             };
             let book = ods::OBook { sheets: vec![ods::OSheet { name: "S".into(), display: None, rows: vec![
                 ods::ORow { cells: vec![(ods::OCell::new(ods::OVal::StrContent(SENTINEL.into(), ods::SpaceMode::TextS, false)), 1)], repeat: 1 },
-                ods::ORow { cells: vec![(ods::OCell::empty(), 1), (ods::OCell::new(val), 1)], repeat: 1 },
+                ods::ORow { cells: vec![(ods::OCell::empty(), 1), ({ let mut c = ods::OCell::new(val); c.annotation = annotated; c }, 1)], repeat: 1 },
             ] }], ..Default::default() };
-            (ods::write(&book, Method::Deflated), format!("ods storage={storage}"))
+            (ods::write(&book, Method::Deflated), format!("ods storage={storage}{}", if annotated { " annotated" } else { "" }))
         }
     }
 }
@@ -139,7 +140,7 @@ fn applicable(fmt: &str, s: &str) -> bool {
 
 fn run_case(rep: &Report, ch: &mut Chooser, fmt: &str, s: &str, local: &mut Vec<(u64, bool, u64)>) {
     let (bytes, form) = build(ch, fmt, s);
-    if fmt == "ods" && s.contains('\n') && form.ends_with("storage=5") { return; } // attribute form keeps the newline, content form splits paragraphs: both fine, but the attribute + paragraph content disagree by construction — skip
+    if fmt == "ods" && s.contains('\n') && form.contains("storage=5") { return; } // attribute form keeps the newline, content form splits paragraphs: both fine, but the attribute + paragraph content disagree by construction — skip
     rep.eval(1);
     let replay = || Replay { json: json!({"format": fmt, "string": s, "choices": ch.choices(), "form": form}), files: vec![(fmt.to_string(), bytes.clone())] };
     let res = guarded(|| read(fmt, &bytes));
